@@ -5,7 +5,10 @@ import (
 	"encoding/json"
 	"fmt"
 	"strings"
+	"sync"
 	"time"
+
+	"github.com/projecteru2/core/cluster"
 
 	"github.com/projecteru2/core/rpc"
 	pb "github.com/projecteru2/core/rpc/gen"
@@ -383,3 +386,55 @@ func (w *cluWorld) checkRemap(post *cluState, nodes map[string]bool, allowedStal
 		}
 	}
 }
+
+// createShim stands between the real RPC handler and the real cluster: the handler's
+// request translation is bypassed (the prepared options are used), everything else —
+// task bookkeeping, the loop that drains the result channel, what happens when the
+// client's stream refuses a message — is the handler's own code. Every message the handler
+// takes off the channel is recorded.
+type createShim struct {
+	cluster.Cluster
+	opts *coretypes.DeployOptions
+	mu   sync.Mutex
+	seen []*coretypes.CreateWorkloadMessage
+}
+
+func (s *createShim) CreateWorkload(ctx context.Context, _ *coretypes.DeployOptions) (chan *coretypes.CreateWorkloadMessage, error) {
+	ch, err := s.Cluster.CreateWorkload(ctx, s.opts)
+	if err != nil {
+		return nil, err
+	}
+	out := make(chan *coretypes.CreateWorkloadMessage)
+	go func() {
+		defer close(out)
+		for m := range ch {
+			out <- m
+			s.mu.Lock()
+			s.seen = append(s.seen, m)
+			s.mu.Unlock()
+		}
+	}()
+	return out, nil
+}
+
+// fakeCreateStream is the server side of a CreateWorkload stream whose client goes away:
+// from the failFrom-th message on, Send fails.
+type fakeCreateStream struct {
+	ctx      context.Context
+	n        int
+	failFrom int
+}
+
+func (s *fakeCreateStream) Send(*pb.CreateWorkloadMessage) error {
+	s.n++
+	if s.failFrom > 0 && s.n >= s.failFrom {
+		return fmt.Errorf("rpc error: code = Unavailable desc = transport is closing")
+	}
+	return nil
+}
+func (s *fakeCreateStream) SetHeader(metadata.MD) error  { return nil }
+func (s *fakeCreateStream) SendHeader(metadata.MD) error { return nil }
+func (s *fakeCreateStream) SetTrailer(metadata.MD)       {}
+func (s *fakeCreateStream) Context() context.Context     { return s.ctx }
+func (s *fakeCreateStream) SendMsg(m interface{}) error  { return nil }
+func (s *fakeCreateStream) RecvMsg(m interface{}) error  { return nil }
